@@ -6,7 +6,7 @@
    exactly once in each direction (it is an involution, and reader o writer is the identity), byte
    oriented fields are untouched, and the big-endian stream is the field-wise mirror. *)
 From Coq Require Import List String.
-From Sbdf Require Import Imp Gen.Prog ImpFacts ImpFacts7 ImpFactsSwap.
+From Sbdf Require Import Imp Gen.Prog ImpBase ImpFactsSwap.
 From Sbdf Require Import File PrimFacts SevenBit ObjFacts VaFacts SliceFacts.
 From Coq Require Import List.
 From Sbdf.Gen Require Facts.
